@@ -1181,7 +1181,7 @@ class NestedSampler(BaseNestedSampler):
             self.history["population_iterations"].append(self.iteration)
             self.proposal._checked_population = True
 
-        if not (self.iteration % (self.nlive // 10)) or force:
+        if not (self.iteration % max(self.nlive // 10, 1)) or force:
             self.update_history()
 
         if not (self.iteration % self.nlive) or force:
